@@ -3,8 +3,12 @@ package c10
 import (
 	"bytes"
 	"crypto"
+	"crypto/ecdsa"
+	"crypto/rsa"
 	"encoding/base64"
+	"encoding/binary"
 	"fmt"
+	"math/bits"
 	"runtime"
 	"sync"
 
@@ -44,6 +48,8 @@ type sigCase struct {
 	Expansion [][]byte // labels that replace a leading "*" of the owner (wildcard expansion)
 	Pad       bool     // try the zero-padded ECDSA signature
 	NoCaseInv bool     // set by the generator only (known finding #9, NXT): the RDATA-name case invariance is not evaluated
+	ShortR    int      // ECDSA: n > 0 = Sign gets a signer using the n-th nonce whose point has an X with two leading zero octets (r short)
+	ShortS    bool     // ECDSA: the inception time is searched (upwards from Incep) for a digest that gives an s with two leading zero octets
 	SigSample []int    // sampled signature bit positions for slow algorithms
 	KeySample []int    // sampled key bit positions for the re-tagged key alteration
 }
@@ -292,15 +298,66 @@ func checkSign(c sigCase) (err error) {
 	classes := []string{fmt.Sprintf("alg=%d", c.Alg), "type=" + typeName(typ), fmt.Sprintf("records=%d", len(c.Set)), fmt.Sprintf("distinct=%d", len(distinct)),
 		fmt.Sprintf("wildcard=%v", wild), fmt.Sprintf("rdata-names=%v", names), fmt.Sprintf("lowertype=%v", lowerTypes[typ]), fmt.Sprintf("rootzone=%v", len(c.Signer) == 0),
 		fmt.Sprintf("origttl-explicit=%v", c.OrigTTL != 0)}
+	if rk, ok := priv.(*rsa.PrivateKey); ok {
+		classes = append(classes, fmt.Sprintf("rsa-modulus-octets=%d", rk.Size()), fmt.Sprintf("rsa-exponent-octets=%d", (bits.Len(uint(rk.E))+7)/8))
+	}
 	w0, _ := wm.EncodeRR(c.Set[0])
 	defer func() {
 		pbt.Note(append([]byte(fmt.Sprintf("%d|%d|%x|%d|%d|%d|%d|", c.Alg, c.KeySlot, c.KeySeed, len(c.Set), c.OrigTTL, c.Incep, c.Expir)), w0...),
 			len(c.Set) >= 2 || names || wild, classes...)
 	}()
 
+	// the signer handed to Sign: deterministic; for ECDSA optionally with a chosen nonce, so that r and /
+	// or s of the (valid) signature has two leading zero octets - about one random signature in 32768
+	var signer crypto.Signer = ref.DetSigner{Key: priv}
+	if ek, ok := priv.(*ecdsa.PrivateKey); ok && (c.ShortR > 0 || c.ShortS) {
+		nonce := ref.ShortXNonce(c.Alg, c.ShortR-1)
+		if c.ShortR == 0 {
+			nonce = nil
+			if nk, e := ref.ECDSAKeyFromSeed(c.Alg, append([]byte("nonce"), c.KeySeed...)); e == nil {
+				nonce = nk.D
+			}
+		}
+		if nonce != nil {
+			if plan, e := ref.NewNoncePlan(ek, nonce); e == nil {
+				signer = ref.NonceSigner{Key: ek, K: nonce}
+				if c.ShortR > 0 {
+					classes = append(classes, "ecdsa-r-with-2-leading-zero-octets")
+				}
+				if c.ShortS {
+					ttl, labels := c.OrigTTL, len(owner)
+					if ttl == 0 {
+						ttl = c.Set[0].TTL
+					}
+					if wild {
+						labels--
+					}
+					f := sigFields{TypeCovered: typ, Alg: c.Alg, Labels: uint8(labels), OrigTTL: ttl, Expiration: c.Expir, Inception: c.Incep, KeyTag: tag, Signer: c.SignerAs}
+					if data, e := signedData(c.Set, f); e == nil {
+						hf := crypto.SHA256
+						if c.Alg == ref.AlgECDSAP384 {
+							hf = crypto.SHA384
+						}
+						found := false
+						for j := uint32(0); j < 1<<16 && !found; j++ {
+							binary.BigEndian.PutUint32(data[12:], c.Incep+j) // type covered 2, alg 1, labels 1, original TTL 4, expiration 4, then inception
+							h := hf.New()
+							h.Write(data)
+							if plan.LeadingZeroOctets(plan.S(h.Sum(nil))) >= 2 {
+								found = true
+								c.Incep += j
+							}
+						}
+						classes = append(classes, fmt.Sprintf("ecdsa-s-with-2-leading-zero-octets-found=%v", found))
+					}
+				}
+			}
+		}
+	}
+
 	// (1) the library signs
 	sig := &dns.RRSIG{Inception: c.Incep, Expiration: c.Expir, KeyTag: tag, SignerName: wm.EscName(c.SignerAs), Algorithm: c.Alg, OrigTtl: c.OrigTTL}
-	if serr := sig.Sign(ref.DetSigner{Key: priv}, libSet); serr != nil {
+	if serr := sig.Sign(signer, libSet); serr != nil {
 		return pbt.Errf("RRSIG.Sign failed: %v (owner %s type %s alg %d, %d records)", serr, wm.EscName(owner), typeName(typ), c.Alg, len(c.Set))
 	}
 	raw, derr := base64.StdEncoding.DecodeString(sig.Signature)
@@ -645,7 +702,7 @@ func checkSign(c sigCase) (err error) {
 	// single-bit flips of the signature (all bits; sampled for P-384 in the quick tier)
 	key := signed.libKey()
 	var sbits []int
-	if c.Alg == ref.AlgECDSAP384 && !pbt.Thorough() {
+	if (c.Alg == ref.AlgECDSAP384 || len(raw) > 128) && !pbt.Thorough() {
 		for _, s := range c.SigSample {
 			sbits = append(sbits, ((s%(len(raw)*8))+len(raw)*8)%(len(raw)*8))
 		}
@@ -855,6 +912,16 @@ func genSign(t *rapid.T) sigCase {
 	if c.Pad && (c.Alg == ref.AlgECDSAP256 || c.Alg == ref.AlgECDSAP384) && pbt.Known(findPadded) {
 		pbt.Excluded(findPadded)
 		c.Pad = false
+	}
+	if c.Alg == ref.AlgECDSAP256 || c.Alg == ref.AlgECDSAP384 {
+		if rapid.IntRange(0, 3).Draw(t, "shortr") == 0 {
+			c.ShortR = 1 + rapid.IntRange(0, ref.ShortXCount(c.Alg)-1).Draw(t, "shortrn")
+		}
+		c.ShortS = rapid.IntRange(0, 7).Draw(t, "shorts") == 0
+	} else if c.Alg != ref.AlgEd25519 && rapid.IntRange(0, 7).Draw(t, "edgekey") == 0 {
+		// RSA keys at the library's bounds: 512-octet modulus (4096 bits), 3072 and 2048 bits, public
+		// exponents of one and of four octets
+		c.KeySlot = ref.RSAEdgeBase + rapid.IntRange(0, ref.RSAEdgeSize()-1).Draw(t, "edgeslot")
 	}
 	c.SigSample = rapid.SliceOfN(rapid.IntRange(0, 1<<16), 96, 96).Draw(t, "sigsample")
 	c.KeySample = rapid.SliceOfN(rapid.IntRange(0, 1<<16), 12, 12).Draw(t, "keysample")
